@@ -94,10 +94,14 @@ func c17(p *core.Program, r *core.Report) {
 
 	// ---- (1) global immutability
 	const r1 = "globals-immutable"
-	r.Rule(r1, "no instruction outside package initialisers may write a package-level variable of a go-geom library package (directly, through a pointer, or into memory it refers to)", 40)
+	r.Rule(r1, "no instruction outside package initialisers may write a package-level variable of a go-geom library package, directly, through a pointer, or into any memory reachable from it (a slice header copied out of a package variable still points at shared backing storage)", 40)
 	written := map[string][]eng.ExtWrite{}
 	for _, w := range m.GlobalWrites() {
 		written[w.Target.O.Global.String()] = append(written[w.Target.O.Global.String()], w)
+	}
+	for _, w := range m.GlobalReachWrites() {
+		k := w.Target.O.Global.String()
+		written[k] = append(written[k], w)
 	}
 	nvars := 0
 	for _, pkg := range p.LibPkgs() {
@@ -115,7 +119,7 @@ func c17(p *core.Program, r *core.Report) {
 			key := strings.TrimPrefix(pkg.PkgPath, mod+"/") + "." + n
 			if ws := written[g.String()]; len(ws) > 0 {
 				w := ws[0]
-				r.Bad(r1, key, p.Pos(w.Event.Instr.Pos()), fmt.Sprintf("package variable %s is written by %s (%s): shared mutable state makes concurrent calls interfere", n, core.FuncName(w.Event.Fn), w.Event.What))
+				r.Bad(r1, key, p.Pos(w.Event.Instr.Pos()), fmt.Sprintf("package variable %s, or memory reachable from it (%s), is written by %s (%s): shared mutable state makes concurrent calls interfere and later calls overwrite earlier results", n, w.Target.P, core.FuncName(w.Event.Fn), w.Event.What))
 			} else {
 				r.OK(r1, key, p.Pos(g.Pos()), true, "no write site in the module can target this variable")
 			}
